@@ -251,6 +251,16 @@ Proof.
   destruct (poll_finished _) eqn:F; [reflexivity|]. apply IH. apply HI; assumption.
 Qed.
 
+Lemma fstep_of_post : forall (s : vsock) o,
+  fs_post (fstep_of cci s o) = fp_of_vsock cci (vstep_state cci s o).
+Proof. intros s o. unfold fstep_of, vstep_state. destruct (vstep cci s o) as [[[s' out] dw] sw]. reflexivity. Qed.
+
+Lemma fstep_of_pre : forall (s : vsock) o, fs_pre (fstep_of cci s o) = fp_of_vsock cci s.
+Proof. intros s o. unfold fstep_of. destruct (vstep cci s o) as [[[s' out] dw] sw]. reflexivity. Qed.
+
+Lemma fstep_of_result : forall (s : vsock) o, fs_result (fstep_of cci s o) = fresult_of (vstep_out s o).
+Proof. intros s o. unfold fstep_of, vstep_out. destruct (vstep cci s o) as [[[s' out] dw] sw]. reflexivity. Qed.
+
 (* unfolding one poll step *)
 Lemma vstep_poll : forall (s : vsock) sc s' r,
   poll cci (VSockRec.set_sends s sc) = (s', r) ->
